@@ -1,6 +1,6 @@
 (* C10 - the storage contract both backends are compared against: last value wins per key, exact selection
    of the invalidation / retry / pending queries.  ONLY statements. *)
-From MDK Require Import Base.Prelude Base.AMap Store.Contract Store.ContractSpec Store.ContractProofs.
+From MDK Require Import Base.Prelude Base.AMap Store.Contract Store.ContractSpec Store.ContractProofs Store.SqlTie.
 
 Theorem C10_group_find_after_save : forall s g,
   snd (step s (SaveGroup g)) = ROk ->
@@ -65,3 +65,8 @@ Print Assumptions C10_mark_retryable_only_failed.
 Theorem C10_reads_pure : forall s o, is_read_op o = true -> fst (step s o) = s.
 Proof. exact reads_pure. Qed.
 Print Assumptions C10_reads_pure.
+
+(* the SQLite backend's SQL text (ORDER BY clauses, FK cascades, restore statement plan) is the one the contract assumes *)
+Theorem C10_sql_tables_tied : sql_tie_statement.
+Proof. exact sql_tie. Qed.
+Print Assumptions C10_sql_tables_tied.
